@@ -6,6 +6,8 @@ mod envx;
 mod e3_core;
 #[path = "../../shared/e3_hist.rs"]
 mod e3_hist;
+#[path = "../../shared/e3_times.rs"]
+mod e3_times;
 #[path = "../../shared/e3_main.rs"]
 mod e3_main;
 
